@@ -78,10 +78,26 @@ Proof.
   - split; sp; [lia|exact Hadd].
 Qed.
 
+Lemma remove_fabric_tbl : forall st s i, tbl_ok st (fst (remove_fabric repaired st s i)).
+Proof.
+  intros st s i. unfold remove_fabric.
+  destruct (negb (allowed st s)); [apply tbl_ok_refl|].
+  destruct (i =? 0); [apply tbl_ok_refl|].
+  destruct (fget i (st_fabs st)) as [fb|]; [|apply tbl_ok_refl].
+  cbn [fst drop_bound fx_drop_bound repaired]. apply tbl_ok_sub; sp; [reflexivity|].
+  intros x Hx. apply In_fdel in Hx. exists x. tauto.
+Qed.
+
+Lemma commit_sub_tbl : forall st sid, tbl_ok st (commit_sub st sid).
+Proof.
+  intros st sid. unfold commit_sub. destruct (sget sid (st_sess st)) as [x|]; [|apply tbl_ok_refl].
+  destruct (Nat.leb _ _); [apply tbl_ok_refl|]. apply tbl_ok_same; reflexivity.
+Qed.
+
 Lemma step_tbl : forall st o, Inv st -> tbl_ok st (fst (step st o)).
 Proof.
   intros st o H. unfold step.
-  destruct o as [sid|sid r|sid|sid|sid i| |sid|sid|r|i node|i|k| | | |sid k|sid| |r|k|sid|sid]; cbn [step_fx]; cbv zeta.
+  destruct o as [sid|sid r|sid|sid|sid i| |sid|sid|r|i node|i|k| | | |sid k|sid| |r|k|sid|sid|sid|sid i]; cbn [step_fx]; cbv zeta.
   - destruct (sess_ctx st sid) as [s|]; [|apply tbl_ok_refl].
     destruct (negb (allowed st s)); [apply tbl_ok_refl|].
     destruct (st_fs st) as [|f fl]; [|destruct (f =? s_fab s); apply tbl_ok_refl].
@@ -99,12 +115,7 @@ Proof.
     destruct (is_pase s); [apply tbl_ok_refl|].
     destruct (fget (s_fab s) (st_fabs st)) as [fb|]; [|apply tbl_ok_refl].
     apply tbl_ok_same; reflexivity.
-  - destruct (sess_ctx st sid) as [s|]; [|apply tbl_ok_refl].
-    destruct (negb (allowed st s)); [apply tbl_ok_refl|].
-    destruct (i =? 0); [apply tbl_ok_refl|].
-    destruct (fget i (st_fabs st)) as [fb|]; [|apply tbl_ok_refl].
-    cbn [fst drop_bound fx_drop_bound repaired]. apply tbl_ok_sub; sp; [reflexivity|].
-    intros x Hx. apply In_fdel in Hx. exists x. tauto.
+  - destruct (sess_ctx st sid) as [s|]; [|apply tbl_ok_refl]. apply remove_fabric_tbl.
   - cbn [fst]. apply expire_tbl; exact H.
   - destruct (sess_ctx st sid) as [s|]; [|apply tbl_ok_refl].
     destruct (negb (allowed st s)); [apply tbl_ok_refl|].
@@ -150,6 +161,15 @@ Proof.
     destruct (s_res s); [|apply tbl_ok_refl]. apply tbl_ok_same; reflexivity.
   - destruct (sget sid (st_sess st)) as [s|]; [|apply tbl_ok_refl].
     destruct (s_res s); [|apply tbl_ok_refl]. apply tbl_ok_same; reflexivity.
+  - destruct (sess_ctx st sid) as [s|]; [|apply tbl_ok_refl].
+    destruct (negb (is_case s)); [apply tbl_ok_refl|]. cbn [fst].
+    eapply tbl_ok_trans; [apply expire_tbl; exact H|apply commit_sub_tbl].
+  - destruct (sess_ctx st sid) as [s|]; [|apply tbl_ok_refl].
+    destruct (negb (is_case s)); [apply tbl_ok_refl|].
+    destruct (negb (can_view st s)); [apply tbl_ok_refl|].
+    pose proof (remove_fabric_tbl st s i) as Ht.
+    destruct (remove_fabric repaired st s i) as [st1 r1]. cbn [fst] in *.
+    eapply tbl_ok_trans; [exact Ht|apply commit_sub_tbl].
 Qed.
 
 (** ** gone / unreferenced *)
@@ -201,7 +221,7 @@ Theorem removed_is_gone :
     gone (fst (step st (ORemove sid i))) (f_inc f).
 Proof.
   intros st sid i f H G Hok. unfold step in *. cbn [step_fx] in *.
-  destruct (sess_ctx st sid) as [s|]; [|discriminate Hok].
+  destruct (sess_ctx st sid) as [s|]; [|discriminate Hok]. unfold remove_fabric in *.
   destruct (negb (allowed st s)); [discriminate Hok|].
   destruct (i =? 0); [discriminate Hok|]. rewrite G in *.
   cbn [fst drop_bound fx_drop_bound repaired]. unfold gone; sp. apply gone_fdel; assumption.
@@ -360,7 +380,7 @@ Theorem removal_purges_slots :
     forall x, In x (st_sess st') -> s_fab x = i -> s_exp x = true.
 Proof.
   intros st sid i st' Hs x Hx Hf. unfold step in Hs. cbn [step_fx] in Hs.
-  destruct (sess_ctx st sid) as [s|]; [|discriminate Hs].
+  destruct (sess_ctx st sid) as [s|]; [|discriminate Hs]. unfold remove_fabric in Hs.
   destruct (negb (allowed st s)); [discriminate Hs|].
   destruct (i =? 0); [discriminate Hs|].
   destruct (fget i (st_fabs st)) as [fb|]; [|discriminate Hs].
@@ -444,13 +464,26 @@ Theorem removed_not_reloadable :
     fget i (st_kvfabs st') = None /\ (forall r, In r (st_kvrecs st') -> r_fab r <> i).
 Proof.
   intros st sid i f st' H G Hs. unfold step in Hs. cbn [step_fx] in Hs.
-  destruct (sess_ctx st sid) as [s|]; [|discriminate Hs].
+  destruct (sess_ctx st sid) as [s|]; [|discriminate Hs]. unfold remove_fabric in Hs.
   destruct (negb (allowed st s)); [discriminate Hs|].
   destruct (i =? 0); [discriminate Hs|].
   rewrite G in Hs. inversion Hs; subst st'. cbn [drop_bound fx_drop_bound repaired]. sp. split.
   - apply fget_fdel_eq.
   - intros r Hr. apply In_recs_drop in Hr. tauto.
 Qed.
+
+(** ** A subscription committed after the removal broadcast of its fabric is purged *)
+Theorem late_subscription_purged_due :
+  forall st sid, Inv st -> nothing_left_behind (fst (step st (OSubscribeDue sid))).
+Proof. intros st sid H. apply inv_tight. apply invariant_step. exact H. Qed.
+
+Theorem late_subscription_purged_remove :
+  forall st sid i, Inv st -> nothing_left_behind (fst (step st (OSubscribeRemove sid i))).
+Proof. intros st sid i H. apply inv_tight. apply invariant_step. exact H. Qed.
+
+Theorem purge_drops_fabricless :
+  forall st u, In u (st_subs (purge st)) -> has_fab (st_fabs st) (u_fab u) = true.
+Proof. intros st u Hu. unfold purge in Hu. sp. apply filter_In in Hu. tauto. Qed.
 
 (** ** Frame *)
 Lemma rp_frame : forall i keep l, others_sess i true (remove_pase keep l) = others_sess i true l.
@@ -475,15 +508,6 @@ Proof.
     destruct (Hk k eq_refl) as (s' & Hs' & Ei & Ef).
     assert (s' = x) by (apply (NoDup_map_In_inj s_id l); congruence). subst s'.
     apply negb_true_iff, N.eqb_neq in Hp. contradiction.
-Qed.
-
-Lemma keep_if_on_some : forall f keep l k,
-  keep_if_on f keep l = Some k -> exists s', In s' l /\ s_id s' = k /\ s_fab s' = f.
-Proof.
-  unfold keep_if_on. intros f keep l k H. destruct keep as [k0|]; [|discriminate].
-  destruct (sget k0 l) as [s'|] eqn:G; [|discriminate].
-  destruct (s_fab s' =? f) eqn:E; [|discriminate]. inversion H; subst k0.
-  apply N.eqb_eq in E. destruct (sget_In _ _ _ G) as [G1 G2]. eauto.
 Qed.
 
 Lemma expire_frame : forall st keep f fl,
@@ -520,7 +544,7 @@ Proof.
     unfold step in Hs; cbn [step_fx] in Hs.
   - (* ORemove *)
     inversion Hr; subst.
-    destruct (sess_ctx st s) as [ss|] eqn:C; [|discriminate Hs].
+    destruct (sess_ctx st s) as [ss|] eqn:C; [|discriminate Hs]. unfold remove_fabric in Hs.
     destruct (negb (allowed st ss)); [discriminate Hs|].
     destruct (i =? 0); [discriminate Hs|].
     destruct (fget i (st_fabs st)) as [fb|]; [|discriminate Hs].
